@@ -643,9 +643,58 @@ func (ex *Exec) enterLoop(fr *Frame, st *State, li *loopInfo) *State {
 	// 3. havoc
 	out := st.clone()
 	if epochMod {
-		// the body contains a call about which nothing is known: the whole heap may differ
-		ex.havocEverything(out)
-		modHeap = map[string]bool{}
+		// the body contains a call about which nothing (or nothing but a set of preserved
+		// struct families) is known: the whole heap, or everything but those families, may differ
+		total := false
+		var but map[string]bool
+		inProbe := map[*WriteRec]bool{}
+		for _, w := range probe.Writes {
+			inProbe[w] = true
+		}
+		for _, bs := range backs {
+			for _, w := range bs.Writes {
+				if inProbe[w] {
+					continue
+				}
+				switch w.Kind {
+				case "everything":
+					total = true
+				case "everything_but":
+					ks := map[string]bool{}
+					for _, k := range strings.Split(w.Key, ",") {
+						if k != "" {
+							ks[k] = true
+						}
+					}
+					if but == nil {
+						but = ks
+					} else {
+						for k := range but {
+							if !ks[k] {
+								delete(but, k)
+							}
+						}
+					}
+				}
+			}
+		}
+		if total || but == nil {
+			ex.havocEverything(out)
+			modHeap = map[string]bool{}
+		} else {
+			var keys []string
+			for k := range but {
+				keys = append(keys, k)
+			}
+			ex.havocEverythingBut(out, keys)
+			// families of the preserved types that the body writes explicitly are havocked below
+			for n := range modHeap {
+				parts := strings.SplitN(n, "|", 3)
+				if !(strings.HasPrefix(n, "G|ghost") || (parts[0] == "H" && but[parts[1]])) {
+					delete(modHeap, n)
+				}
+			}
+		}
 	}
 	for c := range modCells {
 		v := out.Cells[c]
